@@ -44,7 +44,7 @@ def normal_paths_pass(cfg: CFG, pred: Pred) -> Optional[List[N]]:
     return cfg.find_path(cfg.entry, cfg.exit, avoid=pred, strict=True)
 
 
-def _must(ctx: Ctx, obs: List[Ob], f: Func, label: str, pred: Pred, props, why: str) -> None:
+def _must(ctx: Ctx, obs: List[Ob], f: Func, label: str, pred: Pred, props, why: str, excuse=None) -> None:
     cfg = ctx.cfg(f)
     if not any(pred(n) for n in cfg.stmt_nodes()):
         obs.append(ctx.ob("MUST", props, f, label, None, False, f"no statement of {f.qualname} does this at all: {why}"))
@@ -59,6 +59,12 @@ def _must(ctx: Ctx, obs: List[Ob], f: Func, label: str, pred: Pred, props, why: 
             if bool(miss) != (w is not None):
                 raise AnalysisError(f"engine self-check failed for MUST `{label}` in {f.qualname}: reachability says "
                                     f"{'skip possible' if w else 'always passes'}, path enumeration finds {len(miss)} skipping paths of {len(paths)}")
+    if w is not None and excuse is not None:
+        # every skipping path must be excused (bounded enumeration; an unexcused or unenumerable path keeps the finding)
+        paths = [p for p in cfg.enumerate_paths(loop_bound=1, limit=5000) if p[-1].kind == "exit"]
+        miss = [p for p in paths if not any(pred(n) for n in p)]
+        if miss and len(paths) < 5000 and all(excuse(p) for p in miss):
+            w = None
     obs.append(ctx.ob("MUST", props, f, label, None, w is None,
                       "" if w is None else f"a normal path through {f.qualname} skips it: {why}",
                       None if w is None else describe_path(w)))
@@ -92,6 +98,73 @@ def _dominates(ctx: Ctx, obs: List[Ob], f: Func, label: str, target_pred: Pred, 
             path = describe_path(p) if p else None
         obs.append(ctx.ob(rule_name, props, f, f"{label}: {norm(t.ast) if t.ast is not None else t.kind}", t.ast, ok,
                           "" if ok else why, path))
+
+
+def _noop_move_excuse(ctx: Ctx, f: Func):
+    """Excuse for a path through move_to that moves nothing: it is provably a no-op move - taken only when the target is
+    the node's own parent and the node already is where the request puts it (append - before None / False - and the
+    node is the last child; before is True and the node is the first child).  Returns excuse(path) -> bool.  Anything
+    else that comes back without moving is not excused."""
+    from .util import path_conds, resolve_expr, split_cond
+
+    sn = f.self_name
+    lists = {"new_parent._children", f"{sn}._parent._children", f"{sn}.parent._children"}
+
+    def text(e: ast.AST, pol: bool, at: ast.AST) -> str:
+        try:
+            e = resolve_expr(ctx, f, at, e)
+        except Exception:
+            pass
+        if pol:
+            return norm(e)
+        if isinstance(e, ast.BoolOp) and isinstance(e.op, ast.And):
+            # not (a and b) == (not a) or (not b)
+            parts = []
+            for v in e.values:
+                sub = split_cond(v, False)
+                if len(sub) != 1:
+                    return "not (" + norm(e) + ")"
+                parts.append(text(sub[0][0], sub[0][1], at))
+            return " or ".join(parts)
+        return "not (" + norm(e) + ")"
+
+    def accepted(conds, at: ast.AST) -> bool:
+        ts = {text(e, pol, at) for e, pol in conds}
+        same = any(t in ts for t in (f"new_parent is {sn}._parent", f"{sn}._parent is new_parent"))
+        if not same:
+            return False
+        tail = any(f"{L}[-1] is {sn}" in ts for L in lists)
+        head = any(f"{L}[0] is {sn}" in ts for L in lists)
+        app = any(t in ts for t in ("before is None or before is False", "before is False or before is None", "before is None",
+                                    "before is False", "before in (None, False)", "before in (False, None)"))
+        first = "before is True" in ts
+        return (tail and app and not head) or (head and first and not tail)
+
+    parent_of = ctx.model.parent_of
+
+    def inside(a: ast.AST, block: List[ast.stmt]) -> bool:
+        while a is not None:
+            if any(a is b for b in block):
+                return True
+            a = parent_of(a)
+        return False
+
+    ifs = [st for st in ast.walk(f.node) if isinstance(st, ast.If)]
+
+    def excuse(path: List[N]) -> bool:
+        last = [n for n in path if n.kind == "stmt"]
+        if last and isinstance(last[-1].ast, ast.Return) and last[-1].ast.value is None and accepted(path_conds(ctx, f, last[-1].ast), last[-1].ast):
+            return True
+        for st in ifs:
+            if st.orelse or not any(n.ast is st.test for n in path):
+                continue
+            if any(n.ast is not None and inside(n.ast, st.body) for n in path):
+                continue  # the path went through the body
+            if accepted(path_conds(ctx, f, st) + split_cond(st.test, False), st):
+                return True
+        return False
+
+    return excuse
 
 
 def empty_guards(ctx: Ctx, cfg: CFG, loop: ast.For) -> List[N]:
@@ -247,13 +320,14 @@ def must(ctx: Ctx) -> List[Ob]:
     f = m.func("Node.move_to")
     si = stmt_index(ctx, f)
     unlink = P_effect(si, ["remove", "pop", "delitem"], ["_children"])
-    _must(ctx, obs, f, "takes self out of the old parent's child list", unlink, ["C01", "C04"], "a moved node must appear exactly once")
+    noop = _noop_move_excuse(ctx, f)
+    _must(ctx, obs, f, "takes self out of the old parent's child list", unlink, ["C01", "C04"], "a moved node must appear exactly once", excuse=noop)
     rebind = P_effect(si, ["rebind"], ["_parent"])
-    _must(ctx, obs, f, "sets self._parent", rebind, ["C01", "C04"], "the parent pointer must follow the child list")
+    _must(ctx, obs, f, "sets self._parent", rebind, ["C01", "C04"], "the parent pointer must follow the child list", excuse=noop)
     link = P_or(P_effect(si, ["insert", "append"], ["_children"]),
                 lambda n: any(e.op == "rebind" and e.field == "_children" and "[self]" in e.text.replace(" ", "")
                               for e in si.direct.get(n.id, [])))
-    _must(ctx, obs, f, "inserts self into the new parent's child list", link, ["C01", "C04"], "a moved node must stay reachable")
+    _must(ctx, obs, f, "inserts self into the new parent's child list", link, ["C01", "C04"], "a moved node must stay reachable", excuse=noop)
     _dominates(ctx, obs, f, "self is unlinked from the old list before it is linked into the new one", link, unlink, ["C01"],
                "the node would appear twice")
 
@@ -735,7 +809,7 @@ def guard_uniq(ctx: Ctx) -> List[Ob]:
                     p = ctx.model.parent_of(n.ast)
                     if isinstance(p, ast.If) and any(
                         isinstance(x, ast.Raise) and raised_class(x) == "UniqueConstraintError"
-                        for st in p.body for x in ast.walk(st)
+                        for st in p.body + p.orelse for x in ast.walk(st)
                     ):
                         return True
                 if n.kind == "iter":
